@@ -82,7 +82,7 @@ def names_study(ctx, gen_ok, gen_msg, proofs_ok):
     if not gen_ok:
         ctx.note('buildnames_translator', 'refused: ' + gen_msg[-300:])
         ctx.cov['discharged'] = 0
-    n = ctx.n(48, 500) if gen_ok and proofs_ok else 500
+    n = ctx.n(40, 500) if gen_ok and proofs_ok else 500
     cases = [{'seed': '%d:%d' % (ctx.seed, i), 'nalg': 4 + i % 5,
               'mode': 'mixed' if i % 12 else ('none' if i % 24 else 'all')} for i in range(n)]
     results = []
@@ -138,6 +138,8 @@ def names_study(ctx, gen_ok, gen_msg, proofs_ok):
         r = ok_results[0][1]
         ctx.sample({'build_names_case': {'tags': r['tags'], 'registered': r['idents'][:4],
                                          'fates': r['fates'], 'queue_after': r['obs']['que']}})
+    if bad:
+        return    # a failing input is on the table: the verdict does not depend on the correspondence
     if not gen_ok:
         if not bad:
             ctx.broken('translator buildnames2coq.py refuses schedule.build / dag.Node.locate', gen_msg,
@@ -154,7 +156,7 @@ def names_study(ctx, gen_ok, gen_msg, proofs_ok):
             % (engine_term(r['engine']), idents_term(r['idents']), c,
                '[' + '; '.join(nm(t) for t in r['tags']) + ']', sched_common.nl(r['obs']['que']), c))
     try:
-        vals = ctx.coq_eval(['DV.Model.Store', 'DV.Model.Sched', 'DV.Model.BuildNames'], exprs, z_scope=False, chunk=20)
+        vals = ctx.coq_eval(['DV.Model.Store', 'DV.Model.Sched', 'DV.Model.BuildNames'], exprs, z_scope=False, chunk=14)
     except core.CoqEvalError as e:
         if not bad:
             ctx.broken('model evaluation of build_names failed (generated BuildNamesGen.v does not compile?)',
